@@ -1,5 +1,5 @@
 /-
-C10 helper lemmas for finding F10b: `string_value(float)` (post-processing of CPython's `repr`) against the
+C10 helper lemmas for the pinned helper (former finding F10b): `string_value(float)` (post-processing of CPython's `repr`) against the
 F&O canonical form, on a model of `repr` for finite non-zero doubles.
 
 `pyRepr` is a *trusted model* of CPython's `repr(float)` (float_repr_style 'short', format code 'r' with
@@ -26,6 +26,13 @@ def pyRepr (neg : Bool) (ds : List Char) (e : Int) : List Char :=
   if neg then '-' :: pyReprBody ds e else pyReprBody ds e
 
 /-- shortest digits: non-empty, digits, no trailing zero -/
+/-- where the pinned helper `string_value` (Python `repr` post-processed) differs from the F&O canonical form, on the number
+of shortest digits of the double and its decimal exponent `e` (value = d.ddd × 10^e) — the trigger of the former finding F10b;
+since fix-c10-7 the callers use `atomic_string_value` (`EPV.C10.double_string`) -/
+def pinnedDeviationRegion (ndigits : Nat) (e : Int) : Bool :=
+  (e == -6 || e == -5) || (decide (6 ≤ e) && decide (e < 16)) || (decide (16 ≤ e) && ndigits == 1) ||
+  (decide (e < -6) && (ndigits == 1 || decide (-10 < e)))
+
 def WFDigits (ds : List Char) : Prop :=
   ds ≠ [] ∧ (∀ c ∈ ds, Lex.isDigit c = true) ∧ ds.getLast? ≠ some '0'
 
@@ -35,7 +42,7 @@ def finStr (r : List Char) : List Char :=
   let v := if v.contains '+' then v.filter (· != '+') else v
   if v.contains 'e' then v.map Char.toUpper else v
 
-theorem dblString_fin (a : Bool) (n k : Nat) (r : List Char) : Lex.dblString (.fin a n k) r = finStr r := rfl
+theorem pinnedFloatStr_eq (r : List Char) : Lex.pinnedFloatStr r = finStr r := rfl
 
 /-! ### rstrip -/
 
@@ -142,7 +149,7 @@ theorem st3_neg (b : List Char) : st3 ('-' :: b) = '-' :: st3 b := by
 theorem finStr_neg (b : List Char) : finStr ('-' :: b) = '-' :: finStr b := by
   rw [finStr_eq, finStr_eq, st1_neg, st2_neg, st3_neg]
 
-/-! ### the three regions outside the trigger of F10b -/
+/-! ### the three regions outside the deviation region of the pinned helper -/
 
 theorem wf_last (ds : List Char) (h : WFDigits ds) :
     ∃ x, ds.getLast? = some x ∧ Lex.isDigit x = true ∧ x ≠ '0' := by
@@ -369,10 +376,10 @@ theorem region_exp (d x : Char) (r : List Char) (e : Int)
 /-- **double_string_partial** (relative to the model `pyRepr` of CPython's repr): outside the trigger of
 finding F10b, `string_value` of a finite non-zero double is its F&O canonical string. -/
 theorem finStr_pyRepr (neg : Bool) (ds : List Char) (e : Int) (hwf : WFDigits ds)
-    (ht : Lex.dblStrTrigger ds.length e = false) :
+    (ht : pinnedDeviationRegion ds.length e = false) :
     finStr (pyRepr neg ds e) = XSD.doubleCanon neg ds e := by
   have hbody : finStr (pyReprBody ds e) = XSD.doubleCanon false ds e := by
-    unfold Lex.dblStrTrigger at ht
+    unfold pinnedDeviationRegion at ht
     simp only [Bool.or_eq_false_iff, Bool.and_eq_false_iff, beq_eq_false_iff_ne, ne_eq, decide_eq_false_iff_not,
       beq_iff_eq] at ht
     obtain ⟨⟨⟨⟨h6, h5⟩, hmid⟩, hbig⟩, hsmall⟩ := ht
